@@ -333,6 +333,56 @@ def rule_E5(run_, pkg, an):
                                   rule_sem="C15-E5-optimize-footprint")
 
 
+def export_purity_obligation():
+    """Exports are queries: writing a whole graph (3-D landmark edges that share the offset of a parameter, odometry measurements and
+    poses whose quaternions may have a negative scalar part) to a virtual file and exporting each object on its own leaves every
+    pose, measurement, offset, information matrix and parameter value exactly as it was (decided on the translated writers, whatever
+    they call)."""
+    def fn(it):
+        from ..g2o import build_vertex, build_odometry, build_landmark, build_param
+        from ..interp import ga, sa, gp, Arr, Pose, ClassRef
+        from ..poly import Poly
+        from ..algebra import ObFail
+        it.vfs = {}
+        vs = [build_vertex(it, c, "v%d" % k) for k, c in enumerate(["PoseSE3", "PoseR3", "PoseSE3", "PoseSE2", "PoseR2"])]
+        p3 = build_param(it, "G2OParameterSE3Offset", "p3")
+        ident = it.call_classmethod(ClassRef("PoseSE2"), "identity", [])
+        edges = [build_landmark(it, "PoseSE3", "e0", vs[0], vs[1], ga(p3, "value"), ga(p3, "key")[1]),
+                 build_landmark(it, "PoseSE3", "e1", vs[2], vs[1], ga(p3, "value"), ga(p3, "key")[1]),
+                 build_odometry(it, "PoseSE3", "e2", vs[0], vs[2]),
+                 build_landmark(it, "PoseSE2", "e3", vs[3], vs[4], ident, Poly.const(0))]
+        g = it.construct("Graph", [list(edges), list(vs)])
+        sa(g, "_g2o_params", {it.hashable(ga(p3, "key"), None): p3})
+
+        def state():
+            out = []
+            for k, v in enumerate(vs):
+                out.append(("pose of vertex %d" % k, list(ga(v, "pose").data)))
+            for k, e in enumerate(edges):
+                for f in ("estimate", "offset"):
+                    x = ga(e, f, None)
+                    if isinstance(x, (Pose, Arr)):
+                        out.append(("%s of edge %d" % (f, k), list(x.flat()) if isinstance(x, Arr) and x.ndim == 2 else list(x.data)))
+                out.append(("information of edge %d" % k, list(ga(e, "information").flat())))
+            out.append(("value of the offset parameter", list(ga(p3, "value").data)))
+            return out
+
+        def unchanged(before, what):
+            for (label, a), (_, b) in zip(before, state()):
+                if len(a) != len(b) or any(x != y for x, y in zip(a, b)):
+                    raise ObFail("%s changes the %s" % (what, label))
+        s0 = state()
+        it.call_method(g, "to_g2o", ["out.g2o"])
+        unchanged(s0, "Graph.to_g2o")
+        for k, o in enumerate(vs + edges + [p3]):
+            it.call_method(o, "to_g2o", [])
+            unchanged(s0, "%s.to_g2o" % o.cls)
+        return dict(objects=len(vs) + len(edges) + 1)
+    from ..algebra import run_obligation
+    from .c18 import distinct_names_hook
+    return lambda pkg: run_obligation(pkg, fn, hook=distinct_names_hook, max_paths=256)
+
+
 def rule_E7(run_, pkg):
     """Repeated calls return identical values / no dependence on the call history: the edge queries and the pose Jacobian methods
     are evaluated, every operand is overwritten *in place*, and they are evaluated again -- the answers must be those of fresh
@@ -341,6 +391,8 @@ def rule_E7(run_, pkg):
     from .c01 import stale_state_obligation as edge_history
     from .c10 import stale_state_obligation as pose_history
     tasks = []
+    gto = pkg.method("Graph", "to_g2o")
+    tasks.append(("C15-E1/exports-leave-all-state-unchanged", "C15-E1-query-purity", export_purity_obligation(), "%s:%d" % (gto._gs_module, gto.lineno)))
     for cfg in CONFIGS:
         fn = pkg.method(cfg[0], "calc_error")
         tasks.append(("C15-E7/%s/history-independent" % cfg_name(cfg), "C15-E7-repeatable-queries", edge_history(cfg), "%s:%d" % (fn._gs_module, fn.lineno)))
